@@ -492,6 +492,31 @@ class Evaluator:
         elif isinstance(tgt, ast.Starred):
             self.assign_target(tgt.value, val, fr, st)
 
+    def const_table(self, t):
+        """The dictionary literal a module-level constant (UPPER_CASE name, assigned once with a dict display) denotes, as a term."""
+        if not (isinstance(t, tuple) and t and t[0] == "name" and t[1].startswith("genjax.")):
+            return None
+        short_ = t[1].rsplit(".", 1)[-1]
+        if not short_.lstrip("_").isupper():
+            return None
+        cache = self.__dict__.setdefault("_const_tables", {})
+        if t[1] in cache:
+            return cache[t[1]]
+        cache[t[1]] = None
+        try:
+            r = self.p.lookup(t[1])
+        except Exception:
+            r = None
+        if r is not None and r[0] == "value" and isinstance(r[1], ast.Dict):
+            fr = Frame(self, r[2], r[2].name + ".<module>")
+            try:
+                v = self.expr(r[1], fr)
+            except Exception:
+                v = None
+            if v is not None and v[0] == "dict":
+                cache[t[1]] = v
+        return cache[t[1]]
+
     def namedtuple_items(self, val):
         """Fields, in order, of a call that constructs a repo-local typing.NamedTuple: the value *is* that tuple."""
         if not (isinstance(val, tuple) and val and val[0] == "call" and val[1][0] == "name"):
@@ -820,6 +845,16 @@ class Evaluator:
         return ("slice", f(e.lower), f(e.upper), f(e.step))
 
     def index(self, base, idx):
+        if base[0] == "name":
+            tb = self.const_table(base)
+            if tb is not None:
+                base = tb
+        if base[0] == "dict" and idx[0] not in ("const", "slice") and base[1] and all(k is not None and k[0] in ("name", "const") for k, _ in base[1]):
+            # TABLE[key]: the value under the matching key (a missing key raises KeyError)
+            out = ("raise", ("call", ("name", "builtins.KeyError"), (idx,), ()))
+            for k, v in reversed(base[1]):
+                out = ("ifexp", ("cmp", "==", idx, k), v, out)
+            return out
         h = base[0]
         if idx[0] == "const" and isinstance(idx[1], int) and not isinstance(idx[1], bool):
             i = idx[1]
@@ -1252,6 +1287,8 @@ class Evaluator:
                 it = self.known_items(args[0])
                 if it is not None:
                     return C(len(it))
+            if nm.endswith(".get") and nm.startswith("genjax.") and self.const_table(("name", nm[:-4])) is not None:
+                return self.call_term(("attr", self.const_table(("name", nm[:-4])), "get"), args, kwargs, fr, node)
             if nm == "builtins.slice" and 1 <= len(args) <= 3 and not kwargs:
                 a_ = list(args)
                 lo, hi, st = (NONE, a_[0], NONE) if len(a_) == 1 else (a_[0], a_[1], a_[2] if len(a_) == 3 else NONE)
@@ -1327,6 +1364,8 @@ class Evaluator:
                 return ("tuple", (r, ("collected", stid)))
         if fn[0] == "partial":
             return self.call_term(fn[1], fn[2] + tuple(args), fn[3] + tuple(kwargs), fr, node)
+        if fn[0] == "attr" and fn[2] == "get" and fn[1][0] == "name" and self.const_table(fn[1]) is not None:
+            fn = ("attr", self.const_table(fn[1]), "get")
         if fn[0] == "attr" and fn[2] == "get" and fn[1][0] == "dict" and 1 <= len(args) <= 2 and not kwargs and args[0][0] != "const" \
                 and fn[1][1] and all(k is not None and k[0] in ("name", "const") for k, _ in fn[1][1]):
             # a dispatch table: {k1: v1, k2: v2}.get(key, default) is  v1 if key == k1 else v2 if key == k2 else default
